@@ -32,6 +32,9 @@ inductive Idiom
   | wrapsArgument             -- WrapValues(elements): the caller's slice, not copied
   | freshToCallback           -- BuildArray/BuildHash: a fresh slice handed to the builder callback
   | ownedAppend | ownedReslice -- BasicCollector's private stack while a value is under construction
+  | appendsToGiven            -- a builder callback that only appends to the fresh slice it was given and returns it
+  | ownedHandOver             -- BasicCollector.AddArray's callback: the slice goes through the private stack and is
+                              --   popped from it before it is returned
   | constant                  -- px.EmptyArray …
   | inPlace                   -- a write through the receiver's slice (x[i] = …, copy(x, …), sort)
   | unknown (src : String)
@@ -40,7 +43,8 @@ inductive Idiom
 inductive IdiomClass | fresh | recv | reslice | appendRecv | resliceAppend | inPlace deriving Repr, DecidableEq
 
 def Idiom.cls : Idiom → IdiomClass
-  | .freshCopy | .mapIntoFresh | .wrapsArgument | .freshToCallback | .ownedAppend | .ownedReslice | .constant => .fresh
+  | .freshCopy | .mapIntoFresh | .wrapsArgument | .freshToCallback | .ownedAppend | .ownedReslice | .constant
+  | .appendsToGiven | .ownedHandOver => .fresh
   | .unknown _ => .fresh          -- nothing is known: the model allocates; no side condition accepts `unknown`
   | .returnsReceiver => .recv
   | .resliceReceiver => .reslice
